@@ -82,7 +82,19 @@ ParseFailed(ev) ==
              \cup UNION {RoundTripDiff(ev.res.v[i], ev.rt[i]) : i \in DOMAIN ev.rt \cap DOMAIN ev.res.v}
              \cup (IF ev.rt # <<>> /\ Len(ev.rt) # Len(ev.res.v) THEN {"roundtrip_per_rule"} ELSE {})
 
-LexFailed(ev) == IF Tokenise(ev.chars) # ev.toks THEN {"tokens"} ELSE {}
+(* the name the real tokeniser gives to a lexical class *)
+TypeName(k) == CASE k = "(" -> "group_open" [] k = ")" -> "group_close" [] k = "[" -> "list_open" [] k = "]" -> "list_close"
+                 [] k = "," -> "comma" [] k = "." -> "dot" [] k = "minscore" -> "score"
+                 [] k = "ID" -> "identifier" [] k = "INT" -> "int" [] k = "TEXT" -> "text"
+                 [] k = "RULE" -> "rule" [] k = "CATEGORY" -> "category" [] k = "DESCRIPTION" -> "description"
+                 [] k = "EXAMPLE" -> "example" [] k = "RELATED" -> "related" [] k = "SUPERIORS" -> "superiors"
+                 [] k = "CUTOFF" -> "cutoff" [] k = "NEIGHBOURHOOD" -> "neighbourhood" [] k = "CONDITIONS" -> "conditions"
+                 [] k = "EXTENDERS" -> "extenders" [] k = "DEFINE" -> "define" [] k = "AS" -> "as"
+                 [] OTHER -> k
+(* ev.texts / ev.types: text and class name of every observed token (parallel to ev.toks) *)
+LexFailed(ev) ==
+    (IF Tokenise(ev.chars) # ev.toks THEN {"tokens"} ELSE {})
+    \cup (IF \E i \in DOMAIN ev.types : TypeName(Classify(ev.texts[i], ev.toks[i]).k) # ev.types[i] THEN {"token_classes"} ELSE {})
 
 (* --- shipped rule files, stateful --- *)
 LexItem(toks) == [i \in DOMAIN toks |-> Classify(toks[i].s, toks[i].cp)]
